@@ -17,14 +17,20 @@ def params_of(ref: FuncRef) -> list[str]:
     return [p.arg for p in a.posonlyargs + a.args + a.kwonlyargs]
 
 
+class CoordStub:
+    def __init__(self, aligned=True):
+        self.aligned = aligned
+
+
 class DataStub:
     """Trusted model of a DataArray/Dataset for scipp.transform_coords (DESIGN 2.3 e):
     a present coordinate is used as it is; otherwise the graph entry producing the
     name is evaluated from its parameters, recursively; a name that is neither
     present nor produced raises KeyError(name)."""
 
-    def __init__(self, coords):
-        self.coords = frozenset(coords)
+    def __init__(self, coords, unaligned=()):
+        # name -> coordinate; alignment is a flag of the coordinate and must play no role in what is derivable
+        self.coords = {c: CoordStub(c not in unaligned) for c in sorted(coords)}
         self.used: list[str] = []
         self.graph_used = None
 
@@ -105,13 +111,10 @@ def run(tier: str) -> Run:
     r5 = run.rule('R5', 'convert() succeeds iff the target is derivable from the supplied coordinates under the documented clauses; the missing coordinate is named', 100)
     cfi = repo.func('core.conversions', 'convert')
     triples = list(itertools.product(S.ORIGINS, targets, (True, False)))
-    if tier == 'thorough':
-        import concurrent.futures as cf
-        import os
-        with cf.ProcessPoolExecutor(max_workers=min(16, os.cpu_count() or 4)) as ex:
-            results = list(ex.map(_eval_triple_worker, [(t, tier) for t in triples], chunksize=4))
-    else:
-        results = [eval_triple(repo, it, t, tier) for t in triples]
+    import concurrent.futures as cf
+    import os
+    with cf.ProcessPoolExecutor(max_workers=min(16, os.cpu_count() or 4)) as ex:
+        results = list(ex.map(_eval_triple_worker, [(t, tier) for t in triples], chunksize=4 if tier == 'thorough' else 2))
     n_cfg = 0
     mode_seen = set()
     for (origin, target, scatter), res in zip(triples, results, strict=True):
@@ -188,6 +191,13 @@ def eval_triple(repo, it, triple, tier):
                 want_ok, miss = False, None
             else:
                 want_ok, miss = S.derivable(target, have, S.clauses(origin, target, scatter, mode))
+            # the same coordinates with the energies flagged as unaligned (left over from an earlier conversion)
+            en = {'incident_energy', 'final_energy'} & have
+            if en:
+                o_u = call(repo, it, 'convert', DataStub(have, unaligned=en), origin, target, scatter)
+                if (o_u.kind, o_u.exc_type) != (o.kind, o.exc_type):
+                    bad5.append({'coords': sorted(sub), 'problem': 'outcome depends on the alignment flag of the energy coordinates',
+                                 'aligned': (o.kind, o.exc_type), 'unaligned': (o_u.kind, o_u.exc_type)})
             # R2
             if o.kind == 'raise' and o.exc_type != 'RuntimeError':
                 bad2.append({'coords': sorted(sub), 'raises': o.exc_type, 'where': o.where, 'args': [str(a) for a in getattr(o, 'exc_args', ())]})
